@@ -307,3 +307,27 @@ func TestC33Replay(t *testing.T) {
 		return c33Run(c, vstat.New(nil, "C33", ""))
 	})
 }
+
+// TestC33Seeds runs fixed regression cases: the inputs on which the pinned
+// tree was found to violate the property (finding F8), the suite's own cases
+// and a few boundary shapes.
+func TestC33Seeds(t *testing.T) {
+	st := vstat.New(t, "C33", "fixed regression cases: F8 failing inputs ({0,7}{6,0}{5,0} under {10,10,..}; {1,0..}{0,..} under a zero limit), the cases of fees/set_test.go, overflow and zero-limit shapes")
+	type d = [fees.FeeDimensions]uint64
+	cases := []c33Case{
+		{Dims: []d{{0, 7}, {6, 0}, {5, 0}}, Limit: d{10, 10, 10, 10, 10}},
+		{Dims: []d{{1}, {}}, Limit: d{}},
+		{Dims: []d{{5, 0}, {6, 0}, {0, 7}}, Limit: d{10, 10}},
+		{Dims: []d{{1}, {2}, {3}, {4}, {5}}, Limit: d{4}},
+		{Dims: []d{{1}, {4}, {2}, {5}, {3}}, Limit: d{6}},
+		{Dims: []d{{1}, {0, 2}, {0, 0, 3}, {0, 0, 0, 4}, {0, 0, 0, 0, 5}}, Limit: d{6, 6, 6, 3, 3}},
+		{Dims: []d{{5, 1, 1, 1, 1}, {1, 5, 1, 1, 1}, {1, 1, 5, 1, 1}, {1, 1, 1, 5, 1}, {1, 1, 1, 1, 5}}, Limit: d{7, 7, 7, 7, 7}},
+		{Dims: []d{{c33Max}, {c33Max}, {1}, {0, 1}}, Limit: d{c33Max, c33Max, c33Max, c33Max, c33Max}},
+		{Dims: []d{{c33Two63}, {c33Two63}, {c33Two63 - 1}}, Limit: d{c33Max}},
+		{Dims: []d{}, Limit: d{1, 1, 1, 1, 1}},
+		{Dims: []d{{}, {}, {}}, Limit: d{}},
+	}
+	for _, c := range cases {
+		vstat.Run(t, st, c, func() error { return c33Run(c, st) })
+	}
+}
